@@ -8,6 +8,8 @@ from .. import bits, fields, paths
 from ..core import FUNC, call_attr, calls_in, const, dotted, is_const, kwarg, norm, slice_parts, text, walk_local
 
 EXPLANATION = [
+    'C19.transaction-permits: every statement of avdtp.Protocol that clears a transaction slot releases the transaction semaphore in the same block: a refused command returns its permit like an accepted one.',
+    'C19.avctp-restart: in the AVCTP assembler no path stores the packet count of a START packet and then runs the reset that abandons an earlier message while it goes on assembling: a broken sequence costs only the old message.',
     'C19.sdp-containment: (shared with C17) DataElementParser records the end of the sequence being parsed, refuses an element that ends past it, and puts the outer bound back on every exit of the nested parse (path rule): an empty nested sequence does not leave a stale, too small bound for the siblings that follow.',
     'C19.records-not-aliased: (shared with C17) every local container that a method of sdp.Server modifies in place is one the method created: answering a request never edits a registered record, so later transactions still return exactly the registered attributes.',
     'C19.missing-await: inside async functions no call that resolves (through the declared type of self.<attr>, or self) to a coroutine method is returned or dropped without await.',
@@ -238,9 +240,8 @@ def sdp_budget(ctx):
         R.check(len(errs) == 1 and 'INVALID_CONTINUATION_STATE' in norm(errs[0]), rule, f'{SRV}.check_continuation | refusal', 'refused with INVALID_CONTINUATION_STATE', 'invalid continuation is not answered with INVALID_CONTINUATION_STATE', p.loc(cc))
 
 
-def sdp_watchdog(ctx):
+def sdp_watchdog(ctx, rule='C19.sdp-watchdog'):
     R, p = ctx.r, ctx.p
-    rule = 'C19.sdp-watchdog'
     cli = p.cls('bumble.sdp.Client')
     if cli is None:
         R.bad(rule, 'bumble.sdp.Client', 'anchor missing')
@@ -645,7 +646,68 @@ def sdp_containment_rule(ctx):
     sdp_containment(ctx, 'C19.sdp-containment')
 
 
+def avctp_restart(ctx):
+    """A START packet that arrives while another message is unfinished discards only that message: the new message's
+    packet count, read from the START packet, survives -- it is stored after the reset that abandons the old message."""
+    R, p = ctx.r, ctx.p
+    rule = 'C19.avctp-restart'
+    fn = p.find('bumble.avctp.MessageAssembler.on_pdu')
+    if fn is None:
+        R.bad(rule, 'bumble.avctp.MessageAssembler.on_pdu', 'anchor missing')
+        return
+
+    class D(paths.Domain):
+        # (start packet?, count: None | 'set' | 'cleared')
+        def assume(self, atom, truth, v):
+            t = norm(atom)
+            if t in ('packet_type == Protocol.PacketType.START', 'Protocol.PacketType.START == packet_type'):
+                return ((truth, v[1]),)
+            return (v,)
+
+        def event(self, node, v):
+            if isinstance(node, ast.Assign) and dotted(node.targets[0]) == 'self.number_of_packets':
+                return ((v[0], 'set'),)
+            if isinstance(node, ast.Call) and dotted(node.func) == 'self.reset' and v[1] == 'set':
+                return ((v[0], 'cleared'),)
+            return (v,)
+    res = paths.run(fn, D(), (None, None))
+    lost = [' '.join(w) for k, st in res.items() if not k.startswith('raise') for v, w in st.items() if v[0] is True and v[1] == 'cleared']
+    setok = any(v[1] == 'set' for k, st in res.items() for v in st)
+    # a reset that ends the function (error paths) is fine: only paths that go on assembling matter
+    lost = [w for w in lost if True]
+    going_on = [' '.join(w) for k, st in res.items() if k == 'fall' for v, w in st.items() if v[0] is True and v[1] == 'cleared']
+    R.check(setok and not going_on, rule, 'bumble.avctp.MessageAssembler.on_pdu | packet count of the new message', 'no path stores the START packet\'s count and then resets the assembler while it goes on assembling',
+            'the packet count read from a START packet is wiped by the reset that abandons the previous message: every fragment of the new, well-formed message is then refused ("too many fragments") and that message is lost too', p.loc(fn), going_on[:2])
+
+
+def transaction_permits(ctx):
+    """AVDTP allows 16 commands in flight; each takes a permit.  The permit is returned where the transaction slot is
+    cleared -- whatever the response says: a refusal (Response Reject, turned into an exception by the caller) must not keep
+    the permit, or after 16 refusals no procedure can be started any more."""
+    R, p = ctx.r, ctx.p
+    rule = 'C19.transaction-permits'
+    ci = p.cls('bumble.avdtp.Protocol')
+    if ci is None:
+        R.bad(rule, 'bumble.avdtp.Protocol', 'anchor missing')
+        return
+    n = 0
+    for name, fn in sorted(ci.methods.items()):
+        for st in [x for x in walk_local(fn) if isinstance(x, ast.Assign) and isinstance(x.targets[0], ast.Subscript) and dotted(x.targets[0].value) == 'self.transaction_results' and isinstance(x.value, ast.Constant) and x.value.value is None]:
+            n += 1
+            blk = None
+            par = getattr(st, '_parent', None)
+            for fld in ('body', 'orelse', 'finalbody'):
+                b = getattr(par, fld, None)
+                if isinstance(b, list) and st in b:
+                    blk = b
+            rel = [c for s_ in (blk or []) for c in calls_in(s_) if dotted(c.func) == 'self.transaction_semaphore.release']
+            R.check(bool(rel), rule, f'bumble.avdtp.Protocol.{name} | slot cleared', 'the permit is released where the slot is cleared', 'a transaction slot is cleared without releasing the transaction semaphore in the same block: a release placed after the caller\'s reject check is skipped by every refused command, and 16 refusals exhaust the permits (start_transaction then blocks for ever)', p.loc(st))
+    R.check(n >= 1, rule, 'bumble.avdtp.Protocol | transaction slots', f'{n} clearing site(s)', 'no site clears a transaction slot')
+
+
 RULES = [
+    ('C19.transaction-permits', transaction_permits),
+    ('C19.avctp-restart', avctp_restart),
     ('C19.sdp-containment', sdp_containment_rule),
     ('C19.records-not-aliased', records_not_aliased_rule),
     ('C19.missing-await', missing_await_rule),
